@@ -156,6 +156,17 @@ def memo_property_ok(A: Analysis, col: Collector | None, rule: str) -> bool:
                 if n.body and isinstance(n.body[0], ast.Return) and norm(n.body[0].value) == norm(l):
                     memo_attr = l.attr
                     ok_guard = True
+    # inverted form: `if self._x is None: self._x = <compute>` followed by `return self._x`
+    if memo_attr is None:
+        for n in walk_own(m.node):
+            if isinstance(n, ast.If) and isinstance(n.test, ast.Compare) and len(n.test.ops) == 1 and isinstance(n.test.ops[0], ast.Is):
+                l, r = n.test.left, n.test.comparators[0]
+                if isinstance(l, ast.Attribute) and dotted(l.value) == "self" and isinstance(r, ast.Constant) and r.value is None and not n.orelse:
+                    sets = any(isinstance(a_, ast.Assign) and any(norm(t) == norm(l) for t in a_.targets) for a_ in n.body)
+                    rets_ = [x for x in walk_own(m.node) if isinstance(x, ast.Return)]
+                    if sets and rets_ and all(norm(x.value) == norm(l) for x in rets_) and all(not is_within(x, n) for x in rets_):
+                        memo_attr = l.attr
+                        ok_guard = True
     for n in walk_own(m.node):
         if isinstance(n, ast.Assign) and memo_attr is not None:
             for t in n.targets:
